@@ -288,6 +288,42 @@ func runC16(c *Ctx) {
 		defer restore()
 		return migrations.MigrateToVersion(data, to, migrations.DefaultConfig)
 	}
+	// legacy definitions whose entry node is not the top-most one on the canvas
+	for _, d := range append([]c16Def{}, defs...) {
+		if d.version != "" || !legacy.IsPossibleDefinition(d.data) {
+			continue
+		}
+		var doc map[string]any
+		if json.Unmarshal(d.data, &doc) != nil {
+			continue
+		}
+		entry, _ := doc["entry"].(string)
+		moved := false
+		maxY := 0.0
+		for _, key := range []string{"action_sets", "rule_sets"} {
+			sets, _ := doc[key].([]any)
+			for _, x := range sets {
+				if m, ok := x.(map[string]any); ok {
+					if y, ok := m["y"].(float64); ok && y > maxY {
+						maxY = y
+					}
+				}
+			}
+		}
+		for _, key := range []string{"action_sets", "rule_sets"} {
+			sets, _ := doc[key].([]any)
+			for _, x := range sets {
+				if m, ok := x.(map[string]any); ok && m["uuid"] == entry && entry != "" {
+					m["y"] = maxY + 100
+					moved = true
+				}
+			}
+		}
+		if moved {
+			b, _ := json.Marshal(doc)
+			defs = append(defs, c16Def{name: d.name + "+entry-lowest", data: b, version: "", feats: "stored,entry-not-topmost"})
+		}
+	}
 	var valid [][]byte
 	for _, d := range defs {
 		desc := map[string]any{"definition": d.name, "source_version": d.version, "features": d.feats}
@@ -422,8 +458,14 @@ func runC16(c *Ctx) {
 					"items": types.NewXArray(types.NewXText("i0")), "json": types.NewXObject(map[string]types.XValue{"k": types.NewXText("inner")})})
 				ctx1 := types.NewXObject(map[string]types.XValue{"webhook": val, "contact": types.NewXObject(map[string]types.XValue{"name": types.NewXText("Bob")})})
 				ctx2 := types.NewXObject(map[string]types.XValue{"webhook": types.NewXObject(map[string]types.XValue{"json": val}), "contact": types.NewXObject(map[string]types.XValue{"name": types.NewXText("Bob")})})
+				generated := strings.HasPrefix(d.name, "generated")
 				for k := range before {
-					if _, ok := after[k]; !ok || before[k] == after[k] || !strings.Contains(strings.ToLower(before[k]), "webhook") {
+					if _, ok := after[k]; !ok || !strings.Contains(strings.ToLower(before[k]), "webhook") {
+						continue
+					}
+					// in generated definitions every string with a reference is in a template position, so one that is left
+					// alone is compared as well; in stored ones only what the migration chose to rewrite
+					if before[k] == after[k] && (!generated || !strings.Contains(before[k], "@") || strings.Contains(k, "/_ui/")) {
 						continue
 					}
 					v1, _, e1 := excellent.NewEvaluator().Template(env, ctx1, before[k], nil)
